@@ -171,6 +171,9 @@ func vCsvEntry(two bool, blocks int) {
 		}
 		err := l.HandleCsvTx(zzverif.U64("block"))
 		zzverif.Assert(err == nil, "C20.rpc_csv_handle_never_fails")
+		// C18's view: the block dispatcher (StartWatchingTxs) ends for good at the first error a handler returns;
+		// a chain answer (failing gettxout, missing output) must never stop the notifications of all swaps
+		zzverif.Assert(err == nil, "C18.chain_errors_never_stop_the_block_dispatcher")
 	}
 	zzverif.Assert(g.okCalls["swap-a"] <= 1 && g.okCalls["swap-b"] <= 1, "C20.rpc_csv_at_most_one_accepted_callback")
 	_, wa := l.csvtxWatchList["swap-a"]
@@ -189,7 +192,7 @@ func vCsvEntry(two bool, blocks int) {
 
 // H_C20_rpcCsv_one: bounds: 1 registration, registration + 3 block notifications, all
 // 32-bit csv/confirmations.
-// zzverif:also C07
+// zzverif:also C07 C18
 func H_C20_rpcCsv_one() { vCsvEntry(false, 3) }
 
 // H_C20_rpcCsv_two: bounds: 2 registrations (independent answers per output), registration
